@@ -44,6 +44,9 @@ pub enum ProvSpec {
     /// like Derive, and the principal returned is a user named after the session token in the request
     DeriveTokenPrincipal(Vec<(String, String)>),
     Fail(ErrSpec),
+    /// key database indexed by the exact (access key, session token) pair -> secret; any other pair is answered with
+    /// the error; answers carry the identity `sut::principal_of(principal)`
+    PairDb { entries: Vec<(String, Option<String>, String)>, unknown: ErrSpec, principal: u8 },
 }
 
 impl ProvSpec {
@@ -60,6 +63,7 @@ impl ProvSpec {
                 sut::fixed_key_provider(a)
             }
             ProvSpec::Fail(e) => sut::failing_provider(e.clone()),
+            ProvSpec::PairDb { entries, unknown, principal } => sut::pair_db_provider(entries.clone(), unknown.clone(), *principal),
         }
     }
     /// the reference's view of the same provider
@@ -77,6 +81,12 @@ impl ProvSpec {
                 a.copy_from_slice(&k[..32]);
                 Answer::Key(a)
             }
+            ProvSpec::PairDb { entries, unknown, .. } => match entries.iter().find(|(ak, tok, _)| *ak == ask.access_key && *tok == ask.token) {
+                Some((_, _, secret)) => Answer::Key(
+                    refmodel::hmac::chain(secret.as_bytes(), &ask.date8, ask.region.as_bytes(), ask.service.as_bytes()).ksigning,
+                ),
+                None => ProvSpec::Fail(unknown.clone()).ref_answer(ask),
+            },
             ProvSpec::Fail(ErrSpec::Sig(kind, _)) => {
                 let k = Kind::ALL.iter().find(|k| k.name() == kind.trim_end_matches("None")).copied();
                 Answer::Err(k.unwrap_or(Kind::InternalServiceError))
